@@ -135,8 +135,19 @@ fn fde_program(arch: Arch, fde: &FdeSpec) -> Vec<u8> {
         uleb(&mut out, 40 + r as u64);
     }
     if fde.pac {
-        out.push(0x2d);
-        out.push(0x2d);
+        match arch {
+            Arch::A64 => {
+                out.push(0x2d);
+                out.push(0x2d);
+            }
+            // x86-64: the flag stands for a rule in the stack pointer column, which framehop
+            // does not read: DW_CFA_val_offset_sf r7, -16 (rsp = CFA - 16)
+            Arch::X64 => {
+                out.push(0x15);
+                uleb(&mut out, 7);
+                sleb(&mut out, -16);
+            }
+        }
     }
     for (i, (off, row)) in fde.rows.iter().enumerate() {
         if i > 0 {
